@@ -1,9 +1,10 @@
 """C01 — Returned lines are exactly the scanned lines that satisfy the match part."""
 import interp_common
 
-MODULES = ["Props.C01"]
+MODULES = ["Props.C01", "Props.RunTie"]
 THEOREMS = ["Props.C01.c01_runloop", "Props.C01.c01_toplevel", "Props.C01.c01_compare_ints", "Props.C01.c01_not", "Props.C01.c01_and",
-            "Props.C01.c01_or"]
+            "Props.C01.c01_or",
+            "Props.RunTie.consider_line_source_is_model", "Props.RunTie.advance_source"]
 
 
 def run(check, tier):
